@@ -4,7 +4,7 @@ HARNESS = ["dht/c09_test.go"]
 GO_TEST = "TestVerifC09"
 RUN_MODULE = "Run_C09"
 COQ_TARGETS = ["Corr/Run_C09.vo", "Proofs/HandlersProofs.vo", "Proofs/PeerRecordProofs.vo"]
-N = {"quick": 300, "thorough": 3000}
+N = {"quick": 300, "thorough": 2000}
 RULE = ("one request against a freshly built real IpfsDHT per case: server/client mode, values/providers enabled or not, K in {1,2,3,5,20}, "
         "routing table seeded with 0-60 peers (sometimes the requester and the node itself), scripted peerstore (no / few / >8 KiB of "
         "addresses per peer, fixed order), connectedness, address filter, value store with or without the requested record or failing, "
